@@ -191,6 +191,9 @@ def _empirical(tgt, kind):
             'Hoff': _d(tgt['on'].get_HoRT(T=T0, use_references=False))}
 
 
+SE_COUNT = [0]
+
+
 def _eval_event(R, tgt, Ts, units, emp=None):
     from pmutt import constants as c
     keys = sorted(R.offset.keys())
@@ -200,7 +203,7 @@ def _eval_event(R, tgt, Ts, units, emp=None):
          'absent': sorted(k for k in comp if k not in R.offset and comp[k]),
          'T': [_d(T) for T in Ts], 'R': _d(c.R('%s/K' % units)), 'units': units,
          'Hon': [], 'Hoff': [], 'Gon': [], 'Goff': [], 'HkJon': [], 'HkJoff': [], 'GkJon': [], 'GkJoff': [],
-         'S': [], 'Cp': [], 'Cv': [], 'H2': [], 'G2': [], 'Hdef': [], 'Hrep': [], 'ver': [], 'Hks': [], 'Gks': [],
+         'S': [], 'Cp': [], 'Cv': [], 'H2': [], 'G2': [], 'GSe': [], 'Hdef': [], 'Hrep': [], 'ver': [], 'Hks': [], 'Gks': [],
          'Hdir': [], 'Hdir2': [], 'Gdir2': [],
          'zeros': [_d2(v) for v in (R.get_SoR(), R.get_CpoR(), R.get_CvoR(), R.get_UoRT(),
                                     R.get_AoRT(descriptors=tcomp, T=Ts[0]))],
@@ -219,6 +222,17 @@ def _eval_event(R, tgt, Ts, units, emp=None):
         e['GkJoff'].append(_d(off['GkJ']))
         for q, key in (('S', 'S'), ('Cp', 'Cp'), ('Cv', 'Cv'), ('H', 'H2'), ('G', 'G2')):
             e[key].append([_d2(on[q]), _d2(off[q]), _d2(none[q])])
+        # G with the entropy of the elements subtracted (S_elements=True) is switched off the same way (seed C10-14:
+        # the option combination S_elements=True, use_references=False); where the species' elements have no
+        # tabulated entropy the plain G stands in
+        try:
+            gse = [tgt['on'].get_GoRT(T=T, S_elements=True, use_references=True),
+                   tgt['on'].get_GoRT(T=T, S_elements=True, use_references=False),
+                   tgt['none'].get_GoRT(T=T, S_elements=True)]
+            SE_COUNT[0] += 1
+        except Exception:
+            gse = [on['G'], off['G'], none['G']]
+        e['GSe'].append([_d2(v) for v in gse])
         e['Hdef'].append(_d2(tgt['on'].get_HoRT(T=T)))                       # use_references omitted
         e['Hrep'].append(_d2(tgt['on'].get_HoRT(T=T, use_references=True)))  # second call
         e['ver'].append(_d2(tgt['on'].get_HoRT(T=T, verbose=True)[5]))
